@@ -6,10 +6,16 @@ instance (driver token `dyn`, horizontal linear operators passed as matrices ext
 full explicit_terms / implicit_terms / implicit_inverse, the implicit matrix, and every column routine on
 random nodal inputs.  The named hypotheses of the theorems (transform round trip, curl grad = 0,
 div grad = laplacian, div(uv(zeta, delta)) = delta, the two resolved product rules, linearity) are validated
-on the real grids.  Search: two- and three-profile differential of explicit + implicit for the same absolute
-temperature on the real classes.
+on the real grids: the product rules (`MoistLaws`, used by T4.3 total_tendency_moist_indep_of_reference and T4.4
+cloud_split_residual / cloud_indep_of_reference_partial) must hold on quadratic and cubic grids and must FAIL on
+linear grids, and the moist-type invariance is only demanded on the kinds of grid where they were validated.
+Search: two- and three-profile differential of explicit + implicit for the same absolute temperature on the real
+classes; for the cloud class the measured difference must equal the closed form of cloud_split_residual
+(clip(R (T1-T2) (curl|div)_cos_lat((q_l+q_i) sec2 cos_lat_grad(ln ps)))) to 1e-9, so that any other T_ref dependence
+of that class is still a violation.
 """
 import itertools
+import os
 
 import numpy as np
 
@@ -425,6 +431,7 @@ def _sentinel(ctx, E, shared, validated):
   must_invariant_kinds = set()     # grid kinds on which a moist-type momentum probe had to be invariant
   measured = {}                    # (class, kind, group) -> worst relative dependence
   res_seen = []                    # (kind, wind amplitude, size / total tendency, size / natural scale, mismatch)
+  div_margin, q_clip_err = np.inf, 0.0   # side conditions of T4.3/T4.4 on the generated humidity fields
 
   def totals(cls, eq_args, tref, st, one, iva=True):
     grid, coords, specs, oro = eq_args
@@ -470,6 +477,10 @@ def _sentinel(ctx, E, shared, validated):
     t_abs = rm(n, amp=t_amp * t0) + (t0 * np.linspace(0.75, 1.0, n))[:, None, None] * one
     moist_tr = {D.Q_KEY: rm(n, amp=qs / 3) + qs * one}
     cloud_tr = dict(moist_tr, **{k: rm(n, amp=cscale / 3) + cscale * one for k in (D.QL_KEY, D.QI_KEY)})
+    # side conditions of T4.3 / T4.4: q carries no top wavenumber; division by 1 + (Cp_vapor/Cp - 1) q is a true inverse
+    q_nodal = np.asarray(grid.to_nodal(jnp.asarray(moist_tr[D.Q_KEY])))
+    div_margin = min(div_margin, float(np.abs(1 + (specs.Cp_vapor / specs.Cp - 1) * q_nodal).min()))
+    q_clip_err = max(q_clip_err, _rel(clip(jnp.asarray(moist_tr[D.Q_KEY])), moist_tr[D.Q_KEY]))
     dry_tr = [{}, {'x': rm(n)}, dict(cloud_tr, x=rm(n))][int(rng.integers(0, 3))]
     st = dict(z=rm(n, True, 0.3 * amp), d=rm(n, True, 0.1 * amp), T=t_abs, p=rm(1, amp=p_amp))
     oro = rm(1, amp=0.01)[0] if orog else np.zeros(ms)
@@ -566,6 +577,11 @@ def _sentinel(ctx, E, shared, validated):
             ', '.join(f'{k} (amplitude {a:g}): {s:.1e} | {nt:.1e} | {m:.1e}' for k, a, s, nt, m in res_seen))
   ctx.notes.append('cloud_split_residual: ' + detail)
   ctx.obligation('cloud_split_residual is non-zero on the real grid', 'hypothesis', ok_res, detail)
+  ctx.obligation('side conditions of T4.3/T4.4 hold on every generated moist state: the humidity column is clipped like '
+                 'the rest of the state (clip q = q) and 1 + (Cp_vapor/Cp - 1)·q stays away from 0 at every node '
+                 '(division is a true inverse, hypothesis hdiv)', 'hypothesis',
+                 bool(div_margin > 0.1 and q_clip_err <= 1e-13),
+                 f'min |1 + (Cp_vapor/Cp - 1) q| = {div_margin:.3f}; |clip q - q| / |q| = {q_clip_err:.1e}')
   return must_invariant_kinds
 
 
@@ -574,8 +590,12 @@ def _sentinel(ctx, E, shared, validated):
 
 def run(ctx: common.Ctx):
   E = _Env()
+  # DynamicsMoist (T4.3/T4.4) and DynamicsToy (non-vacuity instance, cloud witness) are imported by the property
+  # module; they are source-audited when present (a missing one breaks the build of the property module)
+  lemma_files = ['DinoProofs/Lemmas/Dynamics.lean', 'DinoProofs/Lemmas/DynamicsMoist.lean',
+                 'DinoProofs/Lemmas/DynamicsToy.lean', 'Dino/Dynamics.lean']
   ctx.lean('DinoProofs.Properties.C04', 'C04.txt',
-           extra_files=['DinoProofs/Lemmas/Dynamics.lean', 'Dino/Dynamics.lean'])
+           extra_files=[f for f in lemma_files if os.path.exists(os.path.join(common.LEAN, f))])
 
   rng = ctx.rng
   # (grid, layers) pairs shared by the correspondence and the search (JAX compiles per shape)
